@@ -14,6 +14,7 @@ Lean model.  After every operation every image returned so far (and every input 
 compared bit for bit with a snapshot taken when it was returned (aliasing on the real objects).
 """
 import itertools
+import zlib
 
 import numpy as np
 
@@ -36,7 +37,7 @@ def gen_case(rng, big):
         dims = [int(rng.integers(1, 3)) for _ in range(3)]
     delta = [float(rng.choice([0.25, 0.5, 1.0, 2.0, 0.75])) for _ in range(ndim)]
     s = int(rng.choice([1, 1, 2, 2, 3, 4])) if ndim < 3 else int(rng.choice([1, 2]))
-    kind = str(rng.choice(['noiseless', 'noiseless', 'noisy-off', 'noisy-det']))
+    kind = str(rng.choice(['noiseless', 'noiseless', 'noisy-off', 'noisy-det', 'noisy-set', 'noisy-set']))
     npix = int(np.prod(dims))
     nin = npix * s ** ndim
     case = {'dims': dims, 'delta': delta, 's': s, 'kind': kind}
@@ -89,7 +90,82 @@ def gen_case(rng, big):
         ops.append(['read'])
     case['ops'] = ops
     case['style'] = style
+    if kind == 'noisy-set':
+        add_setters(rng, case, npix)
     return case
+
+
+PARAMS = ['flat_field', 'dark_current_rate', 'read_noise', 'include_photon_noise']
+
+
+def gen_param(rng, param, npix, off):
+    """a value for a public noise parameter of NoisyDetector, in one of its spellings"""
+    sp = str(rng.choice(['scalar', 'scalar', 'array', 'field']))
+    if param == 'include_photon_noise':
+        return ['bool', not off]
+    if param == 'flat_field':
+        if sp == 'scalar':
+            return ['scalar', 0 if off else float(rng.choice([0.0625, 0.125]))]
+        return [sp, [1.0] * npix if off else [dyadic(rng, 0.5, 1.5, 4) for _ in range(npix)]]
+    if param == 'dark_current_rate':
+        if sp == 'scalar':
+            return ['scalar', (0 if rng.random() < 0.5 else 0.0) if off else dyadic(rng, 0.125, 4, 3)]
+        return [sp, [0.0] * npix if off else [dyadic(rng, 0, 4, 3) for _ in range(npix)]]
+    if sp == 'field':
+        sp = 'array'
+    if sp == 'scalar':
+        return ['scalar', 0 if off else dyadic(rng, 0.125, 2, 3)]
+    return [sp, [0.0] * npix if off else [dyadic(rng, 0.125, 2, 3) for _ in range(npix)]]
+
+
+def is_off(param, spec):
+    if param == 'include_photon_noise':
+        return not spec[1]
+    if param == 'flat_field':
+        return spec[1] == 0 if spec[0] == 'scalar' else all(x == 1 for x in spec[1])
+    return spec[1] == 0 if spec[0] == 'scalar' else all(x == 0 for x in spec[1])
+
+
+def add_setters(rng, case, npix):
+    """constructor arguments in every spelling + parameter assignments between the operations"""
+    ctor = {}
+    for prm in PARAMS:
+        ctor[prm] = gen_param(rng, prm, npix, off=bool(rng.random() < 0.55))
+    case['ctor'] = ctor
+    cur = {prm: is_off(prm, ctor[prm]) for prm in PARAMS}
+    new = []
+    started = False
+    neg = any(op[0] in ('int', 'call') and op[4] < 0 for op in case['ops'])
+
+    def emit(prm, off):
+        spec = gen_param(rng, prm, npix, off)
+        new.append(['set', prm, spec])
+        cur[prm] = is_off(prm, spec)
+
+    for op in case['ops']:
+        if op[0] in ('int', 'call') and not started:
+            mode = str(rng.choice(['off', 'off', 'any', 'keep']))
+            if mode == 'off':
+                for prm in [PARAMS[i] for i in rng.permutation(4)]:
+                    if not cur[prm] or rng.random() < 0.5:      # also re-assign values that are already off
+                        emit(prm, True)
+            elif mode == 'any':
+                for _ in range(int(rng.integers(1, 4))):
+                    emit(PARAMS[int(rng.integers(0, 4))], bool(rng.random() < 0.5))
+            started = True
+        elif op[0] in ('int', 'read') and rng.random() < 0.15:
+            emit(PARAMS[int(rng.integers(0, 4))], bool(rng.random() < 0.5))
+        if op[0] in ('read', 'call'):
+            # (a Poisson draw of a negative charge raises: with negative weights photon noise is always switched off first)
+            if rng.random() < 0.85 or neg:
+                for prm in ('read_noise', 'include_photon_noise'):
+                    if not cur[prm]:
+                        emit(prm, True)
+            if rng.random() < 0.3 and not cur['flat_field']:
+                emit('flat_field', True)
+            started = False
+        new.append(op)
+    case['ops'] = new
 
 
 def D(kind, dims, s, ops, delta=None, **kw):
@@ -103,6 +179,15 @@ def _ones(n, v=1.0):
 
 
 DIRECTED = [
+    # parameter setters: scalar 0 (constructor default) -> explicit map -> the same scalar again, then everything off
+    D('noisy-set', [2, 2], 1, [['int', 'field', [1.0, 2, 3, 4], 1.0, 1.0, False], ['read'],
+                               ['set', 'flat_field', ['array', [2.0, 0.5, 1.5, 1.0]]], ['int', 'field', [1.0, 2, 3, 4], 1.0, 1.0, False], ['read'],
+                               ['set', 'flat_field', ['scalar', 0]], ['int', 'field', [1.0, 2, 3, 4], 2.0, 1.0, False], ['read']],
+      ctor={'flat_field': ['scalar', 0], 'dark_current_rate': ['scalar', 0], 'read_noise': ['scalar', 0], 'include_photon_noise': ['bool', False]}),
+    D('noisy-set', [2, 1], 2, [['set', 'dark_current_rate', ['array', [1.0, 0.5]]], ['int', 'field', [float(i) for i in range(8)], 0.5, 2.0, False],
+                               ['set', 'dark_current_rate', ['scalar', 0]], ['set', 'include_photon_noise', ['bool', False]], ['read'],
+                               ['int', 'field', [float(i) for i in range(8)], 1.0, 1.0, False], ['set', 'read_noise', ['scalar', 0]], ['read']],
+      ctor={'flat_field': ['field', [1.0, 1.0]], 'dark_current_rate': ['scalar', 2.0], 'read_noise': ['scalar', 0.5], 'include_photon_noise': ['bool', True]}),
     D('noiseless', [2, 2], 1, [['read']]),
     D('noisy-off', [2, 2], 1, [['read']]),
     D('noiseless', [3, 2], 1, [['int', 'field', [1.0, 2, 3, 4, 5, 6], 1.0, 1.0, True], ['read'], ['read'],
@@ -141,11 +226,26 @@ def make_detector(case):
     elif case['kind'] == 'noisy-off':
         np.random.seed(12345)
         det = hcipy.NoisyDetector(grid, dark_current_rate=0, read_noise=0, flat_field=0, include_photon_noise=False, subsampling=s)
-    else:
+    elif case['kind'] == 'noisy-det':
         np.random.seed(12345)
         det = hcipy.NoisyDetector(grid, dark_current_rate=case['dark'], read_noise=0, flat_field=np.array(case['flat']),
                                   include_photon_noise=False, subsampling=s)
+    else:
+        np.random.seed(12345)
+        c = case['ctor']
+        det = hcipy.NoisyDetector(grid, dark_current_rate=param_value(c['dark_current_rate'], grid), read_noise=param_value(c['read_noise'], grid),
+                                  flat_field=param_value(c['flat_field'], grid), include_photon_noise=param_value(c['include_photon_noise'], grid),
+                                  subsampling=s)
     return grid, det
+
+
+def param_value(spec, grid):
+    import hcipy
+    if spec[0] in ('scalar', 'bool'):
+        return spec[1]
+    if spec[0] == 'field':
+        return hcipy.Field(np.array(spec[1], dtype=float), grid)
+    return np.array(spec[1], dtype=float)
 
 
 def make_input(det, ik, data):
@@ -192,11 +292,15 @@ def brute_bin(p, dims, s):
 
 def run_real(case):
     """Execute the history; returns a list of observation dicts (one per op)."""
-    grid, det = make_detector(case)
+    try:
+        grid, det = make_detector(case)
+    except Exception as e:  # noqa
+        return [{'op': 'ctor', 'status': 'raises:' + type(e).__name__,
+                 'bad': [('constructor-raises', 'constructing the %s detector raised %s: %s' % (case['kind'], type(e).__name__, str(e)[:100]))]}], ['C17 reset']
     npix = grid.size
     s, dims = case['s'], case['dims']
-    dark = fr(case.get('dark', 0.0))
-    flat = [fr(x) for x in case.get('flat', [1.0] * npix)]
+    cfg = {'dark': [fr(case.get('dark', 0.0))] * npix, 'flat': [fr(x) for x in case.get('flat', [1.0] * npix)],
+           'sigma_zero': True, 'photon': False, 'explicit_flats': [], 'clean': True}
     obs = []
     ikinds_state = {'l': []}
     images = []       # (object, snapshot)
@@ -205,12 +309,51 @@ def run_real(case):
     total_in = Fraction(0)               # sum over the pending integrations of total(power)*dt*w
     pending = 0
     model = ['C17 reset']
-    kind = {'noiseless': 'noiseless', 'noisy-off': 'noisy', 'noisy-det': 'noisy'}[case['kind']]
+    kind = {'noiseless': 'noiseless', 'noisy-off': 'noisy', 'noisy-det': 'noisy', 'noisy-set': 'noisy'}[case['kind']]
     if kind == 'noisy':
         model.append('C17 new noisy %d %s %s %s' % (s, '[' + ','.join(str(d) for d in dims[::-1]) + ']', rat(case.get('dark', 0.0)),
                                                    rat_list(case['flat']) if 'flat' in case else '-'))
     else:
         model.append('C17 new noiseless %d %s' % (s, '[' + ','.join(str(d) for d in dims[::-1]) + ']'))
+
+    def note_param(prm, spec, o):
+        """book-keeping (and model line) for a parameter that has just been given to the detector"""
+        if prm == 'include_photon_noise':
+            cfg['photon'] = bool(spec[1])
+            model.append('C17 set photon %d' % (1 if spec[1] else 0))
+        elif prm == 'read_noise':
+            vals = [float(spec[1])] * npix if spec[0] == 'scalar' else [float(x) for x in spec[1]]
+            cfg['sigma_zero'] = all(x == 0 for x in vals)
+            model.append('C17 set sigma %s' % rat_list(vals))
+        elif prm == 'dark_current_rate':
+            vals = [float(spec[1])] * npix if spec[0] == 'scalar' else [float(x) for x in spec[1]]
+            cfg['dark'] = [fr(x) for x in vals]
+            model.append('C17 set dark %s' % rat_list(vals))
+        else:
+            if spec[0] == 'scalar' and spec[1] == 0:
+                vals = [1.0] * npix                 # N(1, 0): the unit map, whatever was there before
+            elif spec[0] == 'scalar':
+                m = np.asarray(det.flat_field, dtype=float)
+                if m.shape != (npix,):
+                    o['bad'].append(('flat-field-map-shape', 'flat_field = %r left a map of shape %r' % (spec[1], m.shape)))
+                    return
+                for old in cfg['explicit_flats']:
+                    if np.array_equal(m, old):
+                        o['bad'].append(('flat-field-stale-map', 'flat_field = %r (a standard deviation) left an explicitly assigned map in force' % (spec[1],)))
+                        return
+                vals = [float(x) for x in m]
+            else:
+                vals = [float(x) for x in spec[1]]
+                cfg['explicit_flats'].append(np.array(vals))
+            cfg['flat'] = [fr(x) for x in vals]
+            model.append('C17 set flat %s' % rat_list(vals))
+
+    if case['kind'] == 'noisy-set':
+        o0 = {'bad': []}
+        for prm in PARAMS:
+            note_param(prm, case['ctor'][prm], o0)
+        if o0['bad']:
+            return [dict(op='ctor', status='ok', **o0)], model
 
     def check_alias(o):
         for k, (im, snap) in enumerate(images):
@@ -231,6 +374,10 @@ def run_real(case):
             o['bad'].append((key, 'read_out() after %d integrations raised %s: %s' % (pending, type(e).__name__, e)))
             return
         o['status'] = 'ok'
+        flat = cfg['flat']
+        o['random'] = cfg['photon'] or not cfg['sigma_zero']
+        o['off'] = (not o['random']) and cfg['clean'] and all(f == 1 for f in flat)
+        cfg['clean'] = True
         want = [a * f for a, f in zip(expected, flat)]
         o['want'] = want
         o['pending'] = pending
@@ -249,9 +396,14 @@ def run_real(case):
             scale = max([1.0] + [abs(float(x)) for x in want])
             err = max(abs(float(a) - float(b)) for a, b in zip(arr, want)) if npix else 0.0
             o['exact'] = all(fr(a) == b for a, b in zip(arr, want))
-            if not err <= TOL * scale:
-                o['bad'].append(('readout-value', 'read-out after %d integrations differs from the sum of power*dt*weight by %g' % (pending, err)))
-            if case['kind'] != 'noisy-det':
+            if o['random']:
+                pass                # photon or read noise is on for this read-out: the values are random
+            elif not err <= TOL * scale:
+                if case['kind'] == 'noisy-set' and o['off']:
+                    o['bad'].append(('noisy-off-after-setters', 'every noise source is off now, yet the read-out after %d integrations differs from the noiseless image by %g' % (pending, err)))
+                else:
+                    o['bad'].append(('readout-value', 'read-out after %d integrations differs from the sum of power*dt*weight by %g' % (pending, err)))
+            if case['kind'] not in ('noisy-det', 'noisy-set') or (o['off'] and not o['bad']):
                 tot = float(np.sum(arr))
                 if not abs(tot - float(total_in)) <= TOL * max(1.0, abs(float(total_in)), scale * npix):
                     o['bad'].append(('counts-not-conserved', 'total counts %r, integrated power*dt*weight %r' % (tot, float(total_in))))
@@ -286,7 +438,9 @@ def run_real(case):
         pf = [fr(x) for x in power]
         b = brute_bin(pf, dims, s)
         f = fr(dt) * fr(w)
-        expected = [a + x * f + dark * f for a, x in zip(expected, b)]
+        expected = [a + x * f + d * f for a, x, d in zip(expected, b, cfg['dark'])]
+        if any(d != 0 for d in cfg['dark']):
+            cfg['clean'] = False
         total_in += sum(pf) * f
         pending += 1
 
@@ -306,6 +460,16 @@ def run_real(case):
                 model.append('C17 read')
                 o['model_idx'] = len(model) - 1
                 do_read(o)
+        elif op[0] == 'set':
+            prm, spec = op[1], op[2]
+            if prm == 'flat_field':
+                np.random.seed(zlib.crc32(repr(spec).encode()) % (2 ** 31))
+            try:
+                setattr(det, prm, param_value(spec, grid))
+            except Exception as e:  # noqa
+                o['bad'].append(('setter-raises', '%s = <%s> raised %s: %s' % (prm, spec[0], type(e).__name__, str(e)[:100])))
+            if not o['bad']:
+                note_param(prm, spec, o)
         elif op[0] == 'scribble':
             k = op[1]
             if k < len(images) and images[k][0] is not None:
@@ -343,6 +507,27 @@ def twin_check(case):
     if case['kind'] == 'noisy-det':
         return []
     other = dict(case)
+    if case['kind'] == 'noisy-set':
+        # the noiseless detector sees the same history without the parameter assignments; compared are the read-outs
+        # made while every noise source is off (current values) and no dark current entered the exposure
+        other['kind'] = 'noiseless'
+        other['ops'] = [op for op in case['ops'] if op[0] != 'set']
+        a, _ = run_real(case)
+        b, _ = run_real(other)
+        ra = [o for o in a if 'got' in o]
+        rb = [o for o in b if 'got' in o]
+        if any(o['bad'] for o in a) or any(o['bad'] for o in b):
+            return []
+        bad = []
+        for k, (x, y) in enumerate(zip(ra, rb)):
+            if not x.get('off'):
+                continue
+            gx, gy = x.get('got'), y.get('got')
+            scale = max([1.0] + [abs(v) for v in (gy or [])])
+            if gx is None or gy is None or len(gx) != len(gy) or max([abs(u - v) for u, v in zip(gx, gy)] + [0.0]) > TOL * scale:
+                bad.append(('noisy-off-after-setters', 'read-out %d: all noise parameters are off now, but the image differs from the NoiselessDetector image' % k))
+                break
+        return bad
     other['kind'] = 'noisy-off' if case['kind'] == 'noiseless' else 'noiseless'
     other['ops'] = [op for op in case['ops']]
     a, _ = run_real(case)
@@ -390,7 +575,15 @@ def check_case(ctx, case, lines, index):
     ctx.count('readouts_after_several_integrations', multi)
     ctx.count('readouts_with_nothing_integrated', empty)
     ctx.count('readouts_bitwise_exact', sum(1 for o in obs if o.get('exact')))
+    if case['kind'] == 'noisy-set':
+        ctx.count('setter-readouts:all-off', sum(1 for o in obs if o.get('off')))
+        ctx.count('setter-readouts:random(noise on)', sum(1 for o in obs if o.get('random')))
+        ctx.count('setter-readouts:deterministic-noise', sum(1 for o in obs if 'got' in o and not o.get('random') and not o.get('off')))
+        for prm in PARAMS:
+            ctx.count('ctor:%s:%s' % (prm, case['ctor'][prm][0] + ('-off' if is_off(prm, case['ctor'][prm]) else '-on')))
     for op in case['ops']:
+        if op[0] == 'set':
+            ctx.count('set:%s:%s' % (op[1], op[2][0] + ('-off' if is_off(op[1], op[2]) else '-on')))
         if op[0] in ('int', 'call'):
             ctx.count('input:' + op[1])
         if op[0] in ('scribble', 'reuse'):
@@ -415,6 +608,11 @@ def compare_model(ctx, out, case, obs, base):
         if 'model_idx' in o and 'got' in o:
             ctx.traces_validated += 1
             resp = out[base + o['model_idx']]
+            if o.get('random') or resp == 'ok random':
+                if not (o.get('random') and resp == 'ok random'):
+                    ctx.disagree('C17 read', {'case': case, 'model': resp, 'impl_random': o.get('random')})
+                    return
+                continue
             if not resp.startswith('ok ['):
                 ctx.disagree('C17 read', {'case': case, 'model': resp, 'impl': o['status']})
                 return
